@@ -68,9 +68,10 @@ type Contract struct {
 }
 
 // AtStmt is a ghost statement attached to a program point:
-//   at call NAME K: assert E        after the K-th call of NAME (source order) in the function
-//   at store K: assert E            after the K-th store instruction
-//   at call NAME K: ghost x := E    bind a ghost name to the value of E at that point
+//
+//	at call NAME K: assert E        after the K-th call of NAME (source order) in the function
+//	at store K: assert E            after the K-th store instruction
+//	at call NAME K: ghost x := E    bind a ghost name to the value of E at that point
 type AtStmt struct {
 	PointKind string // call, store
 	Callee    string
@@ -89,9 +90,9 @@ type macroDef struct {
 type ContractSet struct {
 	Macros map[string]macroDef
 	PkgInv map[string][]*Clause // package path -> invariants of package-level state assumed at entry
-	ByKey map[string]*Contract
-	Order []string
-	Errs  []string
+	ByKey  map[string]*Contract
+	Order  []string
+	Errs   []string
 }
 
 func NewContractSet() *ContractSet {
